@@ -175,3 +175,8 @@ func VerifC10_CancellationOutcome() {
 		verifrt.Assert(cond.Reason == reason && succ == nil, "C10.outcome.notReportedBeforeCleanupDone")
 	}
 }
+
+// The rollback clean-up order (traffic to stable first and kept there until the workload is resumed) is stated with
+// the task sequences of C04; it is C10's own obligation as well.
+func VerifC10_CanaryRollbackTaskOrder()    { VerifC04_CanaryTaskSequence() }
+func VerifC10_BlueGreenRollbackTaskOrder() { VerifC04_BlueGreenTaskSequence() }
